@@ -72,6 +72,54 @@ CHECKS = {
              "unique-filter / cross-screen combine over a pool of live views of two screens. Because views alias their parent and each other, "
              "after every operation EVERY live view is compared with its reference index set and with the parent's rows at those indices.",
         note="History-only simulation: no I/O, no faults (said plainly in DESIGN 6.14). Plate.merge is outside the property's operation list."),
+    "C05": dict(
+        engine="dbalsim", design="6.5", category="exploration",
+        technique=TECH + ": partition schedules of the scoring phase (co-scheduling, chunking, sub-batching, order, relabelling, entropy reseed) against a loop-by-loop reference estimator",
+        text="The same plates are scored alone, co-scored, split over every chunk index of several chunk counts, with scorer sub-batches "
+             "from 1 to more than the number of plates, with the plate dict and the screen rows permuted, with the posterior samples "
+             "and the distance matrix consistently relabelled (chain files arriving in another order), with a reseeded generator, and "
+             "through the homoscedastic / heteroscedastic / scorer entry points; every score must equal the unpadded loop reference "
+             "within 1e-9(1+|s|) and hence itself across schedules, and be finite whenever some triple has positive distance.",
+        note="The per-experiment Gaussian triple term is frozen from the pinned commit (the only written definition); the reference is "
+             "independent in padding, masks, axes, sub-batching and triple indexing. n <= 8 posterior samples, <= 7 plates x <= 8 experiments."),
+    "C06": dict(
+        engine="scoresim", design="6.6", category="exploration",
+        technique=TECH + ": simulated scoring and selection processes (real CLIs or direct calls) with seeded chunk counts, batches, completion and arrival orders; recording scorer/policy; history oracle",
+        text="One calculate_scores worker per chunk (1 to more chunks than plates), any batch of already selected ids (unobserved, "
+             "observed-after-reveal, mixed, all candidates), score files combined by the select_next_plate process in a seeded arrival "
+             "order, with no policy / k-per-sample / a scripted policy and with scripted scores containing ties and -inf. Over the "
+             "recorded history: every candidate scored exactly once; batch-conditioned views hold exactly one row per distinct ordered "
+             "condition of plate+batch; the returned plate is eligible, allowed and of minimum recorded score; nothing is returned iff "
+             "nothing is allowed.",
+        note="The recording scorer/policy are resolved by the CLIs' own introspection (bound into a batchie module from outside). NaN scores are outside the statement."),
+    "C07": dict(
+        engine="distsim", design="6.7", category="fault_enumeration",
+        technique=TECH + ": per-chunk distance worker processes, seeded arrival order at the combining stage, chunk.duplicate and chunk.lose faults (all single faults enumerated in the thorough tier)",
+        text="Real calculate_distance_matrix processes for every chunk index over real holder files (0-14 samples, 1-3 chain files), "
+             "n_chunks from 1 to more than the number of pairs; the combining stage loads the files in a seeded arrival order, with "
+             "chunks duplicated (same matrix required) or withheld (to_dense must refuse). The assembled matrix must equal the "
+             "single-chunk matrix and a plain-loop reference bit for bit; a scripted metric with a distinct value per unordered pair "
+             "(zeros included) makes any misplaced entry visible; MSEDistance is checked for symmetry, non-negativity, identity.",
+        note="Quick tier samples one fault per run; thorough enumerates every single duplication and every single loss of each sampled "
+             "configuration (exhaustive for that finite sub-space only)."),
+    "C09": dict(
+        engine="predsim", design="6.9", category="exploration",
+        technique=TECH + ": seeded prediction-call histories served by one shared holder across whole screens, plate views, unions and subsets; before/after digests; oracles on reached rows",
+        text="Weak by design: only two clauses are decided by simulation -- a subset predicts exactly like the same rows of the whole "
+             "screen under every partition, and no call mutates the samples or the screen (digests before/after every call, so results "
+             "cannot depend on which worker ran first). The other clauses (loop reference, column symmetry, control neutrality, "
+             "viability = clip(logistic), variance = 1/precision, stacked/averaged helpers) are evaluated on every row these histories reach.",
+        note="Parameters are simulator-chosen arrays of both shipped sample types; arity 1 and 2; control in either or both columns."),
+    "C10": dict(
+        engine="holdersim", design="6.10", category="exploration",
+        technique=TECH + ": holder operation machine against a Python list with save -> fresh process -> load; chain files arriving at the evaluate_model process in a seeded order",
+        text="(a) Histories of add/get/save/load/combine/concat on holders of both sample types with float64-adversarial values "
+             "(denormals, values lost in float32, signed zeros), >= 10 samples in a share of runs, empty single-effect tables; reloaded "
+             "samples must be bit-identical, in order, and predict identically; over-filling, out-of-range access and saving empty must "
+             "be refused. (b) 1-4 chain files of unequal length (synthetic or trained by real train_model processes) reach "
+             "evaluate_model in a seeded arrival order; prediction columns and chain ids must follow the chain-major concatenation in "
+             "exactly that order.",
+        note="All samples of a holder share their shared parameters (the file format stores them once)."),
 }
 
 NOT_APPLICABLE = {
